@@ -73,8 +73,8 @@ def validated_python_name(name, value):
 
 def generated_tokens(text):
     try:
-        # Keep only type, text, start and end of each token; Python 3.12's tokenizer attaches a copy of the whole line to
-        # every token, which for a long list of choices or ranges takes memory by the square of the length.
+        # Keep only type, text, start and end of each token; Python 3.12's tokenizer attaches a copy of the whole
+        # line to every token, which for a long list of choices or ranges takes memory by the square of the length.
         toky = [token_to_keep[:4] for token_to_keep in tokenize.generate_tokens(_compat.token_io_readline(text))]
     except (SyntaxError, UnicodeError, SystemError) as error:
         # For example an IndentationError for text that spans multiple lines; Python 3.12's tokenizer also fails with
